@@ -194,6 +194,7 @@ func genDyn(e *env, rng *gen.Rng) {
 	if r.Thorough {
 		maxLen = 4
 	}
+	var deep uint64
 	patterns := [][]int{{}, {1}, {3}, {1, 1}, {2, 1}, {1, 2, 3}, {3, 1, 2}, {1, 1, 1, 1}, {2, 3, 1, 2}}
 	for _, hs := range patterns {
 		for _, H := range []int{0, 1, 2, 3, 5} {
@@ -227,10 +228,14 @@ func genDyn(e *env, rng *gen.Rng) {
 				}
 				var rec func(seq []string, depth int)
 				rec = func(seq []string, depth int) {
-					ops := append([]string{fmt.Sprintf("dl new %s %s", cfg, hsStr(hs))}, seq...)
-					ops = append(ops, draw)
-					run(ops)
-					r.Count("dl-exhaustive")
+					// case cap of the thorough tier: one in 16 of the histories of length >= 4 (phase = seed)
+					deep++
+					if !r.Thorough || len(seq) < 4 || (deep+r.Seed)%16 == 0 {
+						ops := append([]string{fmt.Sprintf("dl new %s %s", cfg, hsStr(hs))}, seq...)
+						ops = append(ops, draw)
+						run(ops)
+						r.Count("dl-exhaustive")
+					}
 					if depth == 0 {
 						return
 					}
@@ -251,7 +256,7 @@ func genDyn(e *env, rng *gen.Rng) {
 	// scroll up by a pending amount, draw, change the selection, draw
 	upCases := 4000
 	if r.Thorough {
-		upCases = 40000
+		upCases = 20000
 	}
 	for c := 0; c < upCases; c++ {
 		n := rng.Range(2, 8)
@@ -285,7 +290,7 @@ func genDyn(e *env, rng *gen.Rng) {
 	// top, growing, changing heights) between upward/downward scrolls and selection changes
 	repCases := 4000
 	if r.Thorough {
-		repCases = 60000
+		repCases = 30000
 	}
 	for c := 0; c < repCases; c++ {
 		mk := func() []int {
@@ -360,7 +365,7 @@ func genDyn(e *env, rng *gen.Rng) {
 	// random long histories
 	cases := 3000
 	if r.Thorough {
-		cases = 40000
+		cases = 20000
 	}
 	for c := 0; c < cases; c++ {
 		n := rng.Range(0, 12)
